@@ -15,7 +15,7 @@ ID = "C12"
 LEVEL = "exploration"
 RULE = (
     "Base unit + values from the common generator, then a generated SEQUENCE (1-5 steps) of rewrites on the model, each with "
-    "the identity value mapping in canonical leaf order: rename (messages/fields/enums/aliases/constants/all); permute field "
+    "the identity value mapping in canonical leaf order: rename (messages/fields/enums/aliases/constants/all); rename nested definitions of different parent messages to ONE shared short name (same identifier text, different scopes); permute field "
     "declarations keeping numbers; swap adjacent independent definitions; introduce an alias for an unnamed type / inline an "
     "alias; hoist a nested message/enum to file scope / nest a top-level one into a later message (references are re-derived "
     "by the documented scoping rules); move leading top-level definitions into a new imported file (with or without `as`); "
@@ -31,7 +31,7 @@ ASSUMPTIONS = [
     "recorded C10 finding (type nested in an imported file's message) is skipped and counted",
     "ref.py is the specification",
 ]
-REQUIRED_LABELS = ["rw:rename:all", "rw:permute_fields", "rw:swap_defs", "rw:intro_alias", "rw:inline_alias", "rw:hoist_nested", "rw:nest_toplevel", "rw:move_to_import", "rw:cap_const_expr", "rw:renumber", "rw:style"]
+REQUIRED_LABELS = ["rw:rename:all", "rw:rename_collide", "rw:permute_fields", "rw:swap_defs", "rw:intro_alias", "rw:inline_alias", "rw:hoist_nested", "rw:nest_toplevel", "rw:move_to_import", "rw:cap_const_expr", "rw:renumber", "rw:style"]
 
 
 @dataclass
